@@ -42,7 +42,8 @@ impl Clock for RealTimeClock {
 pub struct GenericTokenBucket(TokenCount);
 
 impl GenericTokenBucket {
-    const MAX_TOKENS: u32 = 100;
+    // Must hold at least one minimum charge (200, see should_ratelimit()), or nothing is ever sent.
+    const MAX_TOKENS: u32 = 1000;
     const TOKENS_PER_SECOND: u32 = 2;
 
     pub const fn new() -> Self {
